@@ -1,5 +1,6 @@
 """C02 — strictness: no coercion across value kinds, in every embedding context."""
 import itertools
+import re
 
 from .. import env, genval, model, drive
 from ..common import observe, build_type
@@ -58,7 +59,13 @@ VALUES = {
     'dict': [{'a': 1}, {}, {'alpha': 'x', 'count': 'y'}, {0: 'a', 1: 'b'}],
     'custom-mapping': [genval.CustomMap({'a': 1})],
     'custom-sequence': [genval.CustomSeq([1, 2]), genval.CustomSeq(['a', 'b'])],
+    # already-typed objects met INSIDE data (from_data refuses them at the top level by design): the string kind of a compiled
+    # pattern is part of what it is - a bytes pattern is not a str pattern
+    'compiled-pattern-str': [re.compile('ab+'), re.compile('')],
+    'compiled-pattern-bytes': [re.compile(b'ab+')],
 }
+NESTED_ONLY = ('compiled-pattern-str', 'compiled-pattern-bytes')
+TOP_LEVEL_CONTEXTS = ('top', 'union-member', 'optional', 'annotated')
 SEQ_KINDS = ('list', 'tuple', 'custom-sequence')
 MAP_KINDS = ('dict', 'custom-mapping')
 STR_KINDS = ('str-numeric', 'str-empty', 'str-other')
@@ -95,6 +102,10 @@ MAP_TARGETS = ('dict', 'struct-literal', 'dataclass-struct')
 
 def cell(vk, tk):
     """'accept' | 'reject' | 'content' (decided by the model on the concrete value) | 'unspec'."""
+    if vk in NESTED_ONLY:
+        own = 'pattern-str' if vk == 'compiled-pattern-str' else 'pattern-bytes'
+        if tk == own: return 'unspec'           # whether a compiled pattern is taken as it is: not settled by the statement
+        return 'reject'
     if vk in ('str-subclass-instance', 'bytes-subclass-instance'):
         # an instance of a str/bytes subclass is still a string: never a sequence, mapping, number, bool or None;
         # whether string-reading targets take it (they do, by isinstance) is not something the statement settles
@@ -221,6 +232,8 @@ def run(ctx):
                 for v in VALUES[vk]:
                     if cname == 'optional' and vk == 'none':
                         continue    # None is allowed there by construction
+                    if vk in NESTED_ONLY and cname in TOP_LEVEL_CONTEXTS:
+                        continue
                     try:
                         v2 = wv(v)
                     except TypeError:
@@ -240,6 +253,8 @@ def run(ctx):
             vk, tk = rng.choice(cells)
             base = cell(vk, tk)
             ty, v = TG[tk], rng.choice(VALUES[vk])
+            if vk in NESTED_ONLY:
+                continue
             path = []
             try:
                 for _ in range(rng.randint(2, 5)):
